@@ -133,7 +133,8 @@ def make_sampler(cfg, td, rng, which="tree"):
 
 def cfg_label(cfg):
     return "wiring=%s|kernel=%s|outl=%d|n=%d|np=%d|thr=%s|dist=%s" % (
-        cfg["wiring"], cfg["kernel"], cfg["outl"], cfg["n"], cfg["np"], cfg["thr"], cfg["dist"] + ("" if cfg["dist"] == "table" else ":a=%s" % cfg["alpha"]))
+        cfg["wiring"], cfg["kernel"], cfg["outl"], cfg["n"], cfg["np"], cfg["thr"],
+        cfg["dist"] + ("" if cfg["dist"] == "table" else ":a=%s" % cfg["alpha"]) + ("" if cfg.get("alpha_pre") is None else ":after_a=%s" % cfg["alpha_pre"]))
 
 
 def run_configs(ck, configs, table, which="tree", prop="C01", corrupt=None, sigfn=None, structural_only=False):
@@ -168,6 +169,12 @@ def run_configs(ck, configs, table, which="tree", prop="C01", corrupt=None, sigf
             res = kernels.exact_row(sweep, rng)
         else:
             sampler = make_sampler(cfg, td, rng, which)
+            if cfg.get("alpha_pre") is not None and cfg["dist"] == "real":
+                # history: the same sampler / kernel / distribution objects first perform every update from this start
+                # tree under another concentration value, which is then changed in place WITHOUT clearing any cache
+                td.prior.alpha = cfg["alpha_pre"]
+                kernels.exact_row(lambda: sampler.sample_tree(absstate.build(s0, data)), rng)
+                td.prior.alpha = cfg["alpha"]
             res = kernels.exact_row(lambda: sampler.sample_tree(absstate.build(s0, data)), rng)
         lp1 = float(td.log_p_one(absstate.build(s0, data)))
         return ci, s0, res, lp1
@@ -252,7 +259,13 @@ def configs_for(tier):
     for k, w, outl, a in (("semi", "run", True, 0.3), ("full", "lib", False, 2.5), ("boot", "run", True, 1.0), ("semi", "lib", False, 0.3)):
         cfgs.append(dict(n=2, kernel=k, wiring=w, outl=outl, thr=0.5, np=2, dist="real", alpha=a))
     cfgs.append(dict(base, n=3, kernel="full", wiring="lib", outl=False, thr=0.5))
+    # concentration changed in place between two updates on the same objects, no cache clear in between
+    cfgs.append(dict(n=2, kernel="semi", wiring="lib", outl=True, thr=0.5, np=2, dist="real", alpha=2.5, alpha_pre=0.4))
+    cfgs.append(dict(n=2, kernel="full", wiring="run", outl=False, thr=0.5, np=2, dist="real", alpha=0.4, alpha_pre=2.5))
     cfgs.append(dict(base, n=2, kernel="semi", wiring="run", outl=True, thr=0.5, np=3))
+    # three particles with unequal first-step weights (bootstrap + outliers): resampling really chooses among particles
+    cfgs.append(dict(base, n=2, kernel="boot", wiring="run", outl=True, thr=1.0, np=3))
+    cfgs.append(dict(base, n=2, kernel="boot", wiring="lib", outl=True, thr=0.7, np=3))
     if tier == "thorough":
         for k in ("boot", "semi", "full"):
             for w in ("run", "lib"):
